@@ -383,6 +383,31 @@ def run_property(prop_id, tier, seed, only_clause=None, scale=1.0, procs=None):
     for pc in per_clause.values():
         pc["distinct_nontrivial"] = len(pc["distinct_nontrivial"])
 
+    # 3. optional supplementary campaigns of the thorough tier (coverage-guided fuzzing)
+    extra = {}
+    if tier == "thorough" and only_clause is None:
+        import re
+        import subprocess
+        import tempfile
+        for name, argv in getattr(mod, "POST_THOROUGH", []):
+            with tempfile.TemporaryDirectory(prefix="hgxverif_corpus_") as corpus:
+                cmd = [sys.executable] + [a.replace("{verif}", VERIF_DIR) for a in argv] + [
+                    "-seed=%d" % (seed % (2 ** 31 - 1) + 1), corpus]
+                r = subprocess.run(cmd, cwd=VERIF_DIR, capture_output=True, text=True,
+                                   env=dict(os.environ, PYTHONHASHSEED="0"))
+            out = r.stdout + r.stderr
+            m = re.search(r"Done (\d+) runs", out)
+            extra[name] = {"cmd": " ".join(cmd[:-1]), "exit": r.returncode,
+                           "runs": int(m.group(1)) if m else 0}
+            vm = re.search(r"VIOLATION property=\S+ replay=(\S+)", out)
+            if vm:
+                msg = next((l.strip() for l in out.splitlines() if l.strip().startswith("clause")), "")
+                violations.append((name, vm.group(1), msg))
+            elif "No module named 'atheris'" in out:
+                extra[name]["skipped"] = "atheris not installed (run MANIFEST.setup_cmd)"
+            elif r.returncode != 0:
+                harness_errors.append("%s: exit %d: %s" % (name, r.returncode, out[-400:]))
+
     wall = time.time() - t0
     rules = "; ".join("%s: %s" % (c.name, c.rule) for c in clauses)
     # keep the evidence file readable: cap sample size
@@ -408,6 +433,7 @@ def run_property(prop_id, tier, seed, only_clause=None, scale=1.0, procs=None):
             "regression_replays": n_replayed,
             "shards": len(tasks),
             "harness_errors": harness_errors,
+            "supplementary_campaigns": extra,
             "exhaustive": False,
         },
         "assumptions": getattr(mod, "ASSUMPTIONS", []),
